@@ -720,6 +720,7 @@ func (in *Interp) cond(p *Value) *condState {
 
 func (in *Interp) condWait(fr *Frame, p *Value) {
 	s := in.sched
+	s.yield(fr, "Cond.Wait") // the window between the caller's check and the wait is a scheduling point
 	c := in.cond(p)
 	st := (*p).(Struct)
 	var L Iface
